@@ -895,9 +895,14 @@ func (x *Exec) strEq(a, b Val) string {
 		return g.Fresh(SortBool, and(cs...))
 	}
 	// general case: an exact definition with one universally quantified direction
+	if a.C[0] == b.C[0] && a.C[1] == b.C[1] && a.C[2] == b.C[2] {
+		return "true"
+	}
 	if g.InQuant() {
+		// under a quantifier: equal lengths and either the very same bytes (same array, same
+		// offset) or the uninterpreted content equality
 		fn := g.Fun("streq", []string{arrSort(SortBV64, SortBV8), SortBV64, SortBV64, arrSort(SortBV64, SortBV8), SortBV64, SortBV64}, SortBool)
-		return "(" + fn + " " + strings.Join(a.C, " ") + " " + strings.Join(b.C, " ") + ")"
+		return "(and (= " + a.C[2] + " " + b.C[2] + ") (or (and (= " + a.C[0] + " " + b.C[0] + ") (= " + a.C[1] + " " + b.C[1] + ")) (" + fn + " " + strings.Join(a.C, " ") + " " + strings.Join(b.C, " ") + ")))"
 	}
 	e := g.Const("streq", SortBool)
 	sk := g.Const("streq.k", SortBV64)
